@@ -31,7 +31,7 @@ with open(f"{root}/README.md", "w") as f:
     f.write("# Independently seeded changes\n\nEach directory holds `patch.diff` (applies to /repo HEAD with `git apply`), `demo.py` (run with REPO_UNDER_TEST=<tree>; "
             "exit 0 without the change, non-zero with it) and `meta.json`.\nNone of these is ever committed to /repo. To run a check against one:\n"
             "`git -C /repo apply seeded/<id>/patch.diff; ./check <prop>; git -C /repo checkout -- .`  (or `tools/seedcheck seeded/<id> <prop> x`; `tools/seedall` re-runs all of them "
-            "and rewrites this table and `RESULTS.log`).\n\nLabels A, B: first wave; C, D: second wave; E, F: third wave; G, H: fourth wave; I, J: fifth wave; K, L: sixth wave (each wave was told what the earlier ones had done, to force different mechanisms).\n\n"
+            "and rewrites this table and `RESULTS.log`).\n\nLabels A, B: first wave; C, D: second wave; E, F: third wave; G, H: fourth wave; I, J: fifth wave; K, L: sixth wave; M, N: seventh wave (each wave was told what the earlier ones had done, to force different mechanisms).\n\n"
             "| id | change | needs | quick check exit | mechanism reported | repository tests with the change | note |\n|---|---|---|---|---|---|---|\n")
     for r in rows:
         f.write("| " + " | ".join(str(x) for x in r) + " |\n")
